@@ -47,11 +47,31 @@ func capsFromMask(mask int) []string {
 	return out
 }
 
-var replyAltNames = []string{"ok", "4yz", "5yz", "drop", "garbage"}
+var replyAltNames = []string{"ok", "4yz", "5yz", "drop", "garbage-or-multiline"}
 
 // stdScript answers every event through the chooser with the alphabet {default, 4yz, 5yz, drop}.
 func stdScript(c *vf.Chooser) func(s *refsmtp.Session, ev *refsmtp.Event, def refsmtp.Action) refsmtp.Action {
 	return stdScriptN(c, 4)
+}
+
+// stdScriptM is stdScript plus a fifth alternative: the success reply spread over several lines (RFC 5321 4.2.1).
+func stdScriptM(c *vf.Chooser) func(s *refsmtp.Session, ev *refsmtp.Event, def refsmtp.Action) refsmtp.Action {
+	base := stdScriptN(c, 5)
+	return func(s *refsmtp.Session, ev *refsmtp.Event, def refsmtp.Action) refsmtp.Action {
+		a := base(s, ev, def)
+		if a.Kind == refsmtp.ActRaw && def.Kind == refsmtp.ActReply {
+			// alternative 4 of the 5-way choice: multi-line version of the default reply
+			if ev.Verb == "EHLO" {
+				return def // the EHLO reply is multi-line anyway
+			}
+			txt := s.DefaultText(ev.Verb, def.Code)
+			if def.Text != nil {
+				txt = def.Text
+			}
+			return refsmtp.Action{Kind: refsmtp.ActReply, Code: def.Code, Text: append(append([]string{}, txt...), "second line of the same reply", "third line")}
+		}
+		return a
+	}
 }
 
 // stdScriptN: n=4 → {ok,4yz,5yz,drop}; n=5 adds a garbage (non-SMTP) reply.
@@ -131,7 +151,7 @@ func c04Exec(r *vf.Run, cfg c04Cfg, c *vf.Chooser) (keys []string, whats []strin
 	sess := &refsmtp.Session{Host: hx.Host, Caps: capsFromMask(cfg.Caps)}
 	// after STARTTLS a *different* capability set is advertised: the three MAIL-parameter extensions are inverted
 	sess.CapsTLS = capsFromMask((cfg.Caps ^ 0b000111) &^ (1 << 4))
-	sess.Script = stdScript(c)
+	sess.Script = stdScriptM(c)
 	sess.NewAuth = func(s *refsmtp.Session, mech string) refsmtp.AuthExchange {
 		if mech == "PLAIN" {
 			return plainAuthSrv{"user", "secret-pass"}
@@ -405,7 +425,7 @@ func init() {
 	vf.Register(&vf.Check{
 		ID: "C04", Title: "SMTP dialogue stays legal and in step under every reply script",
 		Run: func(r *vf.Run) {
-			r.SetRule("every reply script with at most k deviations from the all-success script (alphabet ok/4yz/5yz/drop at every command position incl. greeting, EHLO, STARTTLS, AUTH, NOOP, RSET, QUIT) × client configuration × advertised capability subset × batch shape; each execution runs the real Client against the reference SMTP automaton in lock-step; a case is distinct by (configuration, choice vector)")
+			r.SetRule("every reply script with at most k deviations from the all-success script (alphabet ok / 4yz / 5yz / drop / multi-line success reply at every command position incl. greeting, EHLO, STARTTLS, AUTH, NOOP, RSET, QUIT) × client configuration × advertised capability subset × batch shape; each execution runs the real Client against the reference SMTP automaton in lock-step; a case is distinct by (configuration, choice vector)")
 			r.Assume("server never offers PIPELINING", "transport writes succeed after the peer closed (bytes discarded) and the next read reports EOF",
 				"a reply is 'read' once its bytes left the connection (bufio may hold them)")
 			type job struct {
